@@ -141,7 +141,8 @@ def stepWith (fix fixP fix3 fixM : Bool) (s : St) (ts : List String) : St × Str
     match parseNat? now, parseNatList? order with
     | some now, some order =>
       let ex := expiredIds s.pool now
-      if sameSet ex order then ({ s with pool := removeExpired s.pool order }, s!"ok {showSet ex}")
+      if sameSet ex order then
+        ({ s with pool := removeExpired s.pool order }, s!"ok {showSet (removeExpiredIds s.pool order)}")
       else (s, s!"expired-set-differs {showSet ex}")
     | _, _ => (s, "bad-op")
   | ["detach", ids] =>
